@@ -219,6 +219,8 @@ def class_source(classes, markers=True):
           out.append(f"class M{i}_{a}: pass")
   for i, c in enumerate(classes):
     bases = ", ".join(classes[b]["name"] for b in c["bases"])
+    if not bases and c.get("root") is not None:
+      bases = HEADS[c["root"]][0]            # C14d: a class deriving from a builtin head (class U3(int): ...)
     out.append(f"class {c['name']}({bases}):" if bases else f"class {c['name']}:")
     body = []
     for a, k in c["cattrs"]:
@@ -269,14 +271,20 @@ def cls_expr(classes, a):
 
 
 def value_expr(classes, a, variant=0):
-  return HEADS[a][1 + variant] if a < NB else classes[a - NB]["name"] + "()"
+  if a < NB:
+    return HEADS[a][1 + variant]
+  c = classes[a - NB]
+  if c.get("root") is not None:              # C14d: built from the literal of the head it derives from: U3(1), U4([1])
+    return f"{c['name']}({HEADS[c['root']][1]})"
+  return c["name"] + "()"
 
 
 def user_mro(classes):
   """Linearisations as CPython computes them (ids: NB+i, object = 0)."""
   ns = {}
   exec(class_source(classes, markers=False), ns)  # pylint: disable=exec-used
-  idx = {c["name"]: NB + i for i, c in enumerate(classes)}
+  idx = {h[0]: i for i, h in enumerate(HEADS)}
+  idx.update({c["name"]: NB + i for i, c in enumerate(classes)})
   idx["object"] = 0
   return [[idx[k.__name__] for k in ns[c["name"]].__mro__] for c in classes]
 
